@@ -237,8 +237,20 @@ def batches(rng, tier):
 
 
 MANIFEST = {
-    "level_text": "",
-    "level_note": "",
+    "level_text": ("Machine-checked proof (Lean 4) over an executable model that mirrors fcppt::options parser by parser (argument, flag/switch, option, "
+                   "unit, unit_switch, optional, many, product, sum, commands, parse_to_empty, parse_help, constructors, next_arg/use_flag/use_option): "
+                   "for every parser, argument vector, context and fuel a successful parse accounts for every argument index exactly once "
+                   "(remaining state is a sublist, remaining ++ logged indices are a permutation of the input; parse_accounts_all, "
+                   "parse_each_index_exactly_once), next_arg returns exactly the first token that is neither a flag nor the value of an option "
+                   "of the context (next_arg_spec, option_value_never_positional, flags_never_positional), the constructors accept exactly the "
+                   "well-formed definitions (construct_ok_iff_wellformed), optional/many/sum are transactional, and every parser without a many "
+                   "around a non-consuming parser terminates (many_terminates). 'Same record as the reference' is the differential correspondence: "
+                   "66 generated typed parser shapes (int, unsigned, std::string, enum), all argument vectors up to length 6 over each shape's "
+                   "alphabet (thorough; 4 in quick) plus longer seeded vectors, observing parse()/parse_help() and the parser's own parse member."),
+    "level_note": ("Trusted: Lean kernel + propext/Classical.choice/Quot.sound; fidelity of the hand-written model outside the exercised inputs; "
+                   "harness, shape generator and digest protocol; libstdc++ num_get modelled as [+-]?[0-9]+ with range check. help_only_alone and fuel "
+                   "monotonicity are not proved (correspondence only). Open known finding: many(<parser that succeeds without consuming>) does not "
+                   "terminate (model: diverge for every fuel, harness: TIMEOUT). No sorry/axiom/native_decide."),
     "technique": "Lean 4 proof over hand-written executable model + exhaustive differential correspondence (ASan/UBSan harness)",
     "design_ref": "DESIGN.md §5 C03, Appendix A.2",
 }
